@@ -11,6 +11,7 @@ type decision struct {
 	Res            Res
 	Replaced       bool // placeholder replacement (real ask linked to a placeholder)
 	Ph             bool
+	PhKey          string // the placeholder a replacement takes the place of
 }
 
 // decisions lists the asks that the scheduling cycle of this step allocated (normal, reserved, placeholder, replacement).
@@ -32,7 +33,7 @@ func decisions(pre *world.Snap, st *world.Step, post *world.Snap) []decision {
 			if was, ok := pa.Asks[k]; ok && was.Allocated {
 				continue
 			}
-			out = append(out, decision{App: id, Key: k, Node: ask.Node, Res: ask.Res, Replaced: ask.Release != "", Ph: ask.Ph})
+			out = append(out, decision{App: id, Key: k, Node: ask.Node, Res: ask.Res, Replaced: ask.Release != "", Ph: ask.Ph, PhKey: ask.Release})
 		}
 	}
 	return out
@@ -75,6 +76,22 @@ func monC02() mc.Monitor {
 				for _, q := range path {
 					if !post.Queues[q.Path].Allocated.FitsIn(q.Allocated) {
 						out = append(out, v("C02", "swap-increases-queue-usage", "swap", "placeholder swap of %s increased usage of queue %s from %s to %s", d.Key, q.Path, q.Allocated, post.Queues[q.Path].Allocated))
+					}
+				}
+				// the decision itself: once the swap completes the queue holds the real allocation instead of the placeholder;
+				// on a type the real ask needs more of than the placeholder that must still be within the maximum
+				if ph, ok := app.Allocs[d.PhKey]; ok {
+					for _, q := range path {
+						if q.Max == nil || q.Path == "root" {
+							continue
+						}
+						counts["C02.swap-within-max"]++
+						for _, t := range sortedKeys(d.Res) {
+							mv, limited := q.Max[t]
+							if limited && d.Res[t] > ph.Res[t] && q.Allocated[t]-ph.Res[t]+d.Res[t] > mv {
+								out = append(out, v("C02", "swap-above-max", "swap", "scheduler decided to replace placeholder %s (%s) by %s (%s): queue %s goes from %s to %d %s, above its maximum %v", d.PhKey, ph.Res, d.Key, d.Res, q.Path, q.Allocated, q.Allocated[t]-ph.Res[t]+d.Res[t], t, q.Max))
+							}
+						}
 					}
 				}
 				continue
